@@ -17,7 +17,7 @@ git -C /repo worktree remove --force $WT 2>/dev/null
 git -C /repo worktree add -q --detach $WT HEAD || exit 2
 pkg=$(head -1 $D/demo_test.go | sed -n 's/.*copy to: *\([^ ]*\).*/\1/p'); pkg=${pkg%/}
 cd $WT
-git apply $D/patch.diff || { echo "PATCH DOES NOT APPLY"; git -C /repo worktree remove --force $WT; exit 2; }
+git apply $D/patch.diff 2>/dev/null || git apply -3 $D/patch.diff || { echo "PATCH DOES NOT APPLY"; git -C /repo worktree remove --force $WT; exit 2; }
 (cd luahelper-lsp && go build ./... ) || echo "BUILD FAILS"
 suite=$(cd luahelper-lsp && go test -vet=off -count=1 ./... 2>&1 | grep -c "^FAIL\|^--- FAIL")
 tests="$(grep -o 'func Test[A-Za-z0-9_]*' $D/demo_test.go | sed 's/func //' | paste -sd'|')"
